@@ -1,11 +1,214 @@
-"""C25 -- homogenisation bounds are ordered (PARTIAL).
-Engine S with path enumeration: the complete decision trees of computeIsotropicHashinShtrikmanBounds<3> and <2> for two phases are
-regenerated from /repo; Coq proves the bulk bounds are Phi(K*) at the documented K* and Reuss <= HS- <= HS+ <= Voigt (hand-proved
-two-phase lemma on Phi).  Shear bounds, 3..5 phases: ordering checked BY EXECUTION of the real code against means computed in Python."""
-import os
+"""C25 -- homogenisation bounds are ordered, schemes consistent.
+Engine S with path enumeration + hand lemmas on lists.  Regenerated from /repo on every run: the complete decision trees of
+computeIsotropicHashinShtrikmanBounds<3> and <2> for 2 and 3 phases, computeVoigtStiffness, the closed-form dilute / Mori-Tanaka
+schemes for spheres, the spherical Eshelby / Hill / localisation tensors.  Coq: general-N lemma (Phi monotone, harmonic mean at 0, below
+the arithmetic mean) => Reuss <= HS- <= HS+ <= Voigt for bulk and shear; every leaf of the traced trees is the specified bound (true
+min/max of H_i); Voigt stiffness; Eshelby = alpha J + beta K; P:C0 = S; A:(I+P:dC) = I; zero fraction -> matrix; MT = Phi = HS-/HS+.
+Execution of the real double code (judged with exact rational arithmetic for the bounds): corpus of non well-ordered high-contrast
+microstructures + seeded ones, Reuss stiffness, tensorial schemes, ParticulateMicrostructure API (dilute, Mori-Tanaka, self-consistent),
+sum f_i A_i = I; spheroidal / ellipsoidal shapes: execution only."""
+import os, re
+from fractions import Fraction as Fr
+from concurrent.futures import ThreadPoolExecutor
 from vlib import guarded_main
 
-SUPPORT = ["src/Exception/ContractViolation.cxx", "src/Exception/TFELException.cxx"]
+SUPPORT = ["src/Exception/TFELException.cxx", "src/Math/LUException.cxx", "src/Math/MathException.cxx"]
+
+
+def planned_obligations(c, chains):
+    """number of theorems stated in the Properties files of the planned chains (a chain that stops early must still count)"""
+    n = 0
+    for ch in chains:
+        for f in ch:
+            if os.path.basename(f).startswith("Properties"):
+                n += len(re.findall(r"^\s*(?:Theorem|Lemma|Corollary)\s", open(os.path.join(c.dir, "coq", f)).read(), flags=re.M))
+    return n
+
+
+def Hd(d, K, mu):
+    return mu * (Fr(d) * K / 2 + Fr((d + 1) * (d - 2)) * mu / d) / (K + 2 * mu)
+
+
+def phi(f, x, z):
+    return 1 / sum(fi / (z + xi) for fi, xi in zip(f, x)) - z
+
+
+def hs_exact(d, f, K, mu):
+    """independent statement of the bounds: exact rationals, true min / max of the auxiliary moduli"""
+    ks = Fr(2 * (d - 1), d)
+    Hs = [Hd(d, k, m) for k, m in zip(K, mu)]
+    return [phi(f, K, ks * min(mu)), phi(f, mu, min(Hs)), phi(f, K, ks * max(mu)), phi(f, mu, max(Hs))]
+
+
+def iso(n, k, m):
+    """3 k J + 2 m K, n = 6 (3D) or 4 (plane strain), row major"""
+    r = [0.0] * (n * n)
+    for i in range(3):
+        for j in range(3):
+            r[i * n + j] = (k - 2 * m / 3) + (2 * m if i == j else 0.0)
+    for i in range(3, n):
+        r[i * n + i] = 2 * m
+    return r
+
+
+def mdev(a, b):
+    sc = max(1e-300, max(abs(x) for x in b))
+    return max(abs(x - y) for x, y in zip(a, b)) / sc
+
+
+def matmul6(a, b):
+    return [sum(a[i * 6 + k] * b[k * 6 + j] for k in range(6)) for i in range(6) for j in range(6)]
+
+
+def H3f(k, m):
+    return m * (9 * k + 8 * m) / (6 * (k + 2 * m))
+
+
+def judge(c, out):
+    nhs = nother = 0
+    seen_sphere = {}
+    for l in out.splitlines():
+        p = [x.split() for x in l.split("|")]
+        if not p or not p[0]:
+            continue
+        tag = p[0][0]
+        if tag == "HS":
+            d, N, origin = int(p[0][1]), int(p[0][2]), p[0][3]
+            fD, KD, mD, got = ([float(x) for x in p[i]] for i in (1, 2, 3, 4))
+            f, K, mu = [Fr(x) for x in fD], [Fr(x) for x in KD], [Fr(x) for x in mD]
+            s = sum(f)
+            f = [x / s for x in f]          # the fractions are normalised in double: exact normalisation for the judge
+            ex = hs_exact(d, f, K, mu)
+            nhs += 1
+            c.count(1, ("hs", d, N, tuple(KD), tuple(mD)), N > 2 or origin == "corpus")
+            if nhs % 97 == 1 or origin == "corpus" and d == 3 and N == 2:
+                c.sample({"d": d, "phases": N, "f": fD, "K": KD, "mu": mD, "HS [K-, mu-, K+, mu+]": got, "origin": origin})
+            ident = "d%d:N%d:%s" % (d, N, ",".join("%.6g" % v for v in fD + KD + mD))
+            names = ("K_HS-", "mu_HS-", "K_HS+", "mu_HS+")
+            for i in range(4):
+                x = (K, mu)[i % 2]
+                tol = 2e-10 * float(max(x) + abs(ex[i]))
+                if abs(got[i] - float(ex[i])) > tol:
+                    c.report("hs-formula:%s:%s" % (names[i], ident),
+                             "%s returned %.17g, specified bound (exact rational arithmetic, true min/max of H_i) %.17g; d=%d f=%s K=%s mu=%s"
+                             % (names[i], got[i], float(ex[i]), d, fD, KD, mD), {"d": d, "f": fD, "K": KD, "mu": mD, "observed": got,
+                                                                                  "expected": [float(v) for v in ex]}, True)
+            for (nm, x, lo, up) in (("bulk", K, got[0], got[2]), ("shear", mu, got[1], got[3])):
+                reuss = float(1 / sum(fi / xi for fi, xi in zip(f, x)))
+                voigt = float(sum(fi * xi for fi, xi in zip(f, x)))
+                tol = 1e-10 * voigt
+                if not (reuss <= lo + tol and lo <= up + tol and up <= voigt + tol):
+                    c.report("hs-order:%s:%s" % (nm, ident),
+                             "%s moduli not ordered: Reuss %.17g, HS- %.17g, HS+ %.17g, Voigt %.17g (d=%d, f=%s, K=%s, mu=%s)"
+                             % (nm, reuss, lo, up, voigt, d, fD, KD, mD), {"d": d, "f": fD, "K": KD, "mu": mD, "observed": got}, True)
+            continue
+        nother += 1
+        if tag == "VR":
+            d, N = int(p[0][1]), int(p[0][2])
+            x = [float(v) for v in p[1]]
+            f, K, mu = x[:N], x[N:2 * N], x[2 * N:]
+            n = 6 if d == 3 else 4
+            got = [float(v) for v in p[2]]
+            exp = iso(n, sum(a * b for a, b in zip(f, K)), sum(a * b for a, b in zip(f, mu))) + \
+                iso(n, 1 / sum(a / b for a, b in zip(f, K)), 1 / sum(a / b for a, b in zip(f, mu)))
+            c.count(1, ("vr", d, N, tuple(x)))
+            if len(got) != len(exp) or mdev(got, exp) > 1e-9:
+                c.report("voigt-reuss:d%d:%s" % (d, ",".join("%.6g" % v for v in x)),
+                         "computeVoigtStiffness / computeReussStiffness differ from the isotropic tensors of the arithmetic / harmonic means "
+                         "(relative deviation %.3g); f, K, mu = %s" % (mdev(got, exp) if len(got) == len(exp) else -1, x), {"d": d, "x": x, "observed": got}, True)
+        elif tag in ("SPH", "TEN"):
+            k0, m0, f, ki, mi = (float(v) for v in p[1])
+            kd = k0 + f * (ki - k0) * (k0 + 4 / 3 * m0) / (ki + 4 / 3 * m0)
+            md = m0 + f * (mi - m0) * (m0 + H3f(k0, m0)) / (mi + H3f(k0, m0))
+            km = 1 / ((1 - f) / (4 / 3 * m0 + k0) + f / (4 / 3 * m0 + ki)) - 4 / 3 * m0
+            mm = 1 / ((1 - f) / (H3f(k0, m0) + m0) + f / (H3f(k0, m0) + mi)) - H3f(k0, m0)
+            ident = ",".join("%.6g" % v for v in (k0, m0, f, ki, mi))
+            c.count(1, (tag, ident))
+            if tag == "SPH":
+                got = [float(v) for v in p[2]]
+                exp = [kd, md, km, mm]
+                seen_sphere[ident] = exp
+                tolr = 1e-9 if kd > 0 and md > 0 else None    # the KG -> (E, nu) -> KG conversions need positive moduli
+                bad = [i for i in range(4) if (tolr is not None or i >= 2) and abs(got[i] - exp[i]) > 1e-9 * (abs(exp[i]) + k0 + m0)]
+                if f == 0 and [got[0], got[1], got[2], got[3]] != [k0, m0, k0, m0] and mdev(got, [k0, m0, k0, m0]) > 1e-13:
+                    bad.append(9)
+                if bad:
+                    c.report("sphere-schemes:" + ident, "computeSphereDiluteScheme / computeSphereMoriTanakaScheme (k0, m0, f, ki, mi = %s) returned %s, "
+                             "closed forms (dilute K, mu; Mori-Tanaka = Hashin-Shtrikman K, mu) %s" % (ident, got, exp), {"x": [k0, m0, f, ki, mi], "observed": got}, True)
+                # Mori-Tanaka with the softest / stiffest matrix against the exact Hashin-Shtrikman bounds
+                if 0 < f < 1 and ((k0 <= ki and m0 <= mi) or (k0 >= ki and m0 >= mi)):
+                    ex = hs_exact(3, [1 - Fr(f), Fr(f)], [Fr(k0), Fr(ki)], [Fr(m0), Fr(mi)])
+                    ref = ex[0:2] if (k0 <= ki and m0 <= mi) else ex[2:4]
+                    if any(abs(got[2 + i] - float(ref[i])) > 1e-9 * float(abs(ref[i]) + k0 + m0) for i in range(2)):
+                        c.report("mt-vs-hs:" + ident, "Mori-Tanaka with the %s matrix is not the %s Hashin-Shtrikman bound: %s vs %s"
+                                 % (("softest", "lower") if k0 <= ki else ("stiffest", "upper")) + (got[2:], [float(v) for v in ref]),
+                                 {"x": [k0, m0, f, ki, mi], "observed": got}, True)
+            else:
+                dil, mt = [float(v) for v in p[2]], [float(v) for v in p[3]]
+                if mdev(dil, iso(6, kd, md)) > 1e-9 or mdev(mt, iso(6, km, mm)) > 1e-9:
+                    c.report("tensor-schemes:" + ident, "computeDiluteScheme / computeMoriTanakaScheme with the sphere localisation tensor are not the isotropic "
+                             "tensors of the closed-form moduli (deviations %.3g, %.3g)" % (mdev(dil, iso(6, kd, md)), mdev(mt, iso(6, km, mm))),
+                             {"x": [k0, m0, f, ki, mi]}, True)
+        elif tag == "MIC":
+            kind, shape = int(p[0][1]), p[0][2]
+            x = [float(v) for v in p[1]]
+            k0, m0, f, ki, mi = x[:5]
+            v = [float(t) for t in p[2]]
+            C, A0, A1 = v[:36], v[36:72], v[72:108]
+            ident = "%d:%s:%s" % (kind, shape, ",".join("%.6g" % t for t in x))
+            c.count(1, ("mic", ident), shape != "sphere")
+            I6 = iso(6, 1 / 3, 1 / 2)
+            msgs = []
+            if f == 0 and mdev(C, iso(6, k0, m0)) > 1e-11:
+                msgs.append("zero inclusion fraction does not give the matrix (deviation %.3g)" % mdev(C, iso(6, k0, m0)))
+            if kind in (1, 2):
+                s = [(1 - f) * a + f * b for a, b in zip(A0, A1)]
+                if mdev(s, I6) > 1e-9:
+                    msgs.append("sum f_i A_i deviates from the identity by %.3g" % mdev(s, I6))
+            if kind == 0 and mdev(A0, I6) > 1e-14:
+                msgs.append("dilute scheme: the matrix localisator is not the identity")
+            # homogenised stiffness = sum f_i C_i A_i (all three schemes; the dilute one with A_0 = I - f A_1 in effect: C0 + f (C1 - C0) A1)
+            Ci, C0 = iso(6, ki, mi), iso(6, k0, m0)
+            if kind == 0:
+                exp = [a + f * b for a, b in zip(C0, matmul6([p_ - q_ for p_, q_ in zip(Ci, C0)], A1))]
+            else:
+                exp = [(1 - f) * a + f * b for a, b in zip(matmul6(C0, A0), matmul6(Ci, A1))]
+            if mdev(C, exp) > 1e-9:
+                msgs.append("homogenised stiffness is not the average of C_i : A_i (deviation %.3g)" % mdev(C, exp))
+            if shape == "sphere":
+                kd = k0 + f * (ki - k0) * (k0 + 4 / 3 * m0) / (ki + 4 / 3 * m0)
+                md = m0 + f * (mi - m0) * (m0 + H3f(k0, m0)) / (mi + H3f(k0, m0))
+                km = 1 / ((1 - f) / (4 / 3 * m0 + k0) + f / (4 / 3 * m0 + ki)) - 4 / 3 * m0
+                mm = 1 / ((1 - f) / (H3f(k0, m0) + m0) + f / (H3f(k0, m0) + mi)) - H3f(k0, m0)
+                if kind == 0 and mdev(C, iso(6, kd, md)) > 1e-9:
+                    msgs.append("computeDilute differs from the closed-form dilute estimate for spheres")
+                if kind == 1 and mdev(C, iso(6, km, mm)) > 1e-9:
+                    msgs.append("computeMoriTanaka differs from the closed-form Mori-Tanaka estimate for spheres")
+                if kind == 2:
+                    K, G = (C[0] + 2 * C[1]) / 3, C[21] / 2
+                    if mdev(C, iso(6, K, G)) > 1e-9:
+                        msgs.append("self-consistent stiffness for spheres is not isotropic")
+            if msgs:
+                c.report("micro:" + ident, "ParticulateMicrostructure scheme %s with %s inclusions, (k0, m0, f, ki, mi, shape) = %s: %s"
+                         % (("computeDilute", "computeMoriTanaka", "computeSelfConsistent")[kind], shape, x, "; ".join(msgs)), {"kind": kind, "shape": shape, "x": x}, True)
+        elif tag == "ESH":
+            shape = p[0][1]
+            nu, a, b, cc = (float(t) for t in p[1])
+            S = [float(t) for t in p[2]]
+            ident = "%s:%s" % (shape, ",".join("%.6g" % t for t in (nu, a, b, cc)))
+            c.count(1, ("esh", ident), shape != "sphere")
+            msgs = []
+            tr = sum(S[i * 6 + j] for i in range(3) for j in range(3))
+            if abs(tr - (1 + nu) / (1 - nu)) > 1e-8 * (1 + abs(tr)):
+                msgs.append("sum_kl S_kkll = %.15g, expected (1+nu)/(1-nu) = %.15g (dilatation of a dilating inclusion does not depend on its shape)" % (tr, (1 + nu) / (1 - nu)))
+            sph = iso(6, (1 + nu) / (1 - nu) / 9, (4 - 5 * nu) / (1 - nu) / 15)
+            if shape == "sphere" and mdev(S, sph) > 1e-12:
+                msgs.append("sphere: not alpha J + beta K")
+            if shape == "nearsphere" and mdev(S, sph) > 5e-3:
+                msgs.append("spheroid of aspect ratio 1.001 is %.3g away from the sphere" % mdev(S, sph))
+            if msgs:
+                c.report("eshelby:" + ident, "Eshelby tensor (%s, nu=%.17g, semi-axes %s): %s" % (shape, nu, (a, b, cc), "; ".join(msgs)), {"shape": shape, "nu": nu, "axes": [a, b, cc]}, True)
+    return nhs, nother
 
 
 def main(c):
@@ -22,37 +225,38 @@ def main(c):
             nag += 1
             c.count(1, ("agree", l))
             if l.startswith("AGREE-FAIL"):
-                c.report("agree:" + l.split()[1], "traced decision tree and double instantiation disagree: " + l, {"line": l, "seed": c.seed}, True)
-    c.trusted("engine S tracer (path oracle on std::max_element/min_element, printer), g++ template instantiation with Sym",
-              "agreement tree vs double on %d seeded two-phase cases (ties on the shear moduli included)" % nag)
-    res = c.coq([gen, "C25Spec.v", "C25Proofs.v", "Properties_C25.v"], timeout=600)
-    n = c.pick(200, 3000)
-    rc, out, err = c.run([exe, "run", str(c.seed), str(n)])
+                c.report("agree:" + "-".join(l.split()[1:4]), "traced definition and double instantiation disagree: " + l, {"line": l, "seed": c.seed}, True)
+    c.trusted("engine S tracer (path oracle on std::max_element/min_element and on the contract tests, printer), g++ template instantiation with Sym",
+              "agreement traced definition vs double instantiation on %d seeded cases (ties and non well-ordered phases included)" % nag,
+              "tracer: tfel::reportContractViolation (print + abort in /repo) is an exception, i.e. a `None` leaf")
+    n = c.pick(150, 3000)
+    with ThreadPoolExecutor(max_workers=3) as ex:
+        frun = ex.submit(c.run, [exe, "run", str(c.seed), str(n)], 1200)
+        results = [c.coq([gen, "C25Spec.v", "C25General.v"], timeout=900)]
+        if results[0].ok:
+            chains = [["C25Hs.v", "C25Proofs.v", "Properties_C25.v"], ["C25Schemes.v", "Properties_C25_schemes.v"]]
+            results += [f.result() for f in [ex.submit(c.coq, ch, 1500) for ch in chains]]
+        rc, out, err = frun.result()
     if rc != 0:
         c.report("run", "driver failed: " + err[-500:], {"stderr": err[-3000:]}, False)
-        return
-    k = 0
-    for l in out.splitlines():
-        if not l.startswith("RUN"):
-            continue
-        p = [x.split() for x in l.split("|")]
-        d, N = int(p[0][1]), int(p[0][2])
-        f, K, mu = [float(x) for x in p[1]], [float(x) for x in p[2]], [float(x) for x in p[3]]
-        KL, mL, KU, mU = [float(x) for x in p[4]]
-        k += 1
-        c.count(1, (d, N, tuple(K), tuple(mu)), N > 2)
-        if k % 61 == 1:
-            c.sample({"d": d, "phases": N, "f": f, "K": K, "mu": mu, "HS": [KL, mL, KU, mU]})
-        for (name, x, lo, up) in (("bulk", K, KL, KU), ("shear", mu, mL, mU)):
-            reuss = 1.0 / sum(fi / xi for fi, xi in zip(f, x))
-            voigt = sum(fi * xi for fi, xi in zip(f, x))
-            tol = 1e-10 * voigt
-            if not (reuss <= lo + tol and lo <= up + tol and up <= voigt + tol):
-                c.report("order:%s:d%d:N%d:%s" % (name, d, N, ",".join("%.6g" % v for v in f + K + mu)),
-                         "%s moduli not ordered: Reuss %.17g, HS- %.17g, HS+ %.17g, Voigt %.17g (d=%d, f=%s, K=%s, mu=%s)" % (name, reuss, lo, up, voigt, d, f, K, mu),
-                         {"d": d, "f": f, "K": K, "mu": mu, "observed": [KL, mL, KU, mU]}, True)
-    c.coverage["rule"] = "Coq: all admissible two-phase data (bulk bounds, d=2,3); execution: %d seeded 2..5-phase microstructures x d=2,3, bulk and shear" % n
+    else:
+        nhs, nother = judge(c, out)
+        c.coverage["rule"] = ("Coq: all admissible data (HS trees: 2 and 3 phases, d=2,3, bulk and shear; lemma on lists: any number of phases); execution: "
+                              "%d Hashin-Shtrikman cases (corpus of non well-ordered high-contrast microstructures + seeded, 2..5 phases, d=2,3) judged in exact "
+                              "rational arithmetic, %d other cases (Voigt/Reuss stiffness, schemes, localisators, Eshelby tensors)" % (nhs, nother))
     c.coverage["traces_validated_against_impl"] = nag
+    c.coverage["obligations"] = planned_obligations(c, [["C25Hs.v", "C25Proofs.v", "Properties_C25.v"], ["C25Schemes.v", "Properties_C25_schemes.v"]])
+    c.coverage["discharged"] = sum(len(r.discharged) for r in results)
+    c.notes.append("execution only (no theorem): Reuss stiffness tensor, tensorial dilute / Mori-Tanaka, ParticulateMicrostructure API (dilute, Mori-Tanaka, "
+                   "self-consistent), sum f_i A_i = I, spheroidal and ellipsoidal inclusions and their Eshelby tensors")
+
+    class Res:
+        pass
+    res = Res()
+    res.ok = all(r.ok for r in results)
+    res.failed = [f for r in results for f in r.failed]
+    res.discharged = [t for r in results for t in r.discharged]
+    res.theorems = [t for r in results for t in r.theorems]
     if not res.ok:
         if any(v[3] for v in c.violations):
             c.notes.append("proof obligations failed: %s; concrete failing inputs reported above" % [f[2] for f in res.failed])
